@@ -6,7 +6,7 @@ import numpy as np
 import core
 import gen
 
-PROOF_MODULES = ["UnytProofs.C03"]
+PROOF_MODULES = ["UnytProofs.C03", "UnytProofs.C03History"]
 
 EPS = {"float64": 2.0 ** -52, "float32": 2.0 ** -23, "complex128": 2.0 ** -52, "int32": 2.0 ** -23, "int64": 2.0 ** -52}
 
@@ -112,16 +112,174 @@ def snippet(body):
     return "import numpy as np, unyt, sys\nfrom unyt import unyt_array, unyt_quantity, Unit\n" + body
 
 
+# --------------------------------------------------------------------------------------
+# conversion histories (UnytModel/ConvHistory.lean, UnytProofs/C03History.lean)
+
+HIST_REPLAY = r"""
+import numpy as np, unyt, sys
+from unyt import unyt_array, unyt_quantity, Unit
+REG = unyt.unit_registry.default_unit_registry
+x0, a0, ops, rounds, reps = {x0!r}, {a0!r}, {ops!r}, {rounds!r}, {reps!r}
+_fac = {{}}
+def by_hand(x, a, b):
+    # Unit.get_conversion_factor applied by hand, on long-lived units
+    if (a, b) not in _fac:
+        _fac[a, b] = Unit(a, registry=REG).get_conversion_factor(Unit(b, registry=REG))
+    f, o = _fac[a, b]
+    return x * f - (o if o else 0.0), abs(x * f) + abs(o or 0.0)
+def play():
+    obj = unyt_array([x0], a0)
+    label = a0
+    out = []
+    for _ in range(rounds):
+        for op in ops:
+            if op[0] == "C":
+                pre = float(obj.d[0]); obj.convert_to_units(op[1]); out.append((op, pre, label, float(obj.d[0]))); label = op[1]
+            elif op[0] == "P":
+                pre = float(obj.d[0])
+                r = obj.to_value(op[1]) if op[2] == 0 else (obj.to(op[1]).d if op[2] == 1 else obj.in_units(op[1]).d)
+                out.append((op, pre, label, float(r[0])))
+            elif op[0] == "T":
+                out.append((op, op[1], op[2], unyt_quantity(op[1], op[2]).to_value(op[3])))
+            else:
+                t = unyt_array([op[1]], op[2]); t.convert_to_units(op[3]); out.append((op, op[1], op[2], float(t.d[0])))
+    return out
+for rep in range(reps):
+    for i, (op, pre, label, got) in enumerate(play()):
+        tg = op[1] if op[0] in "CP" else op[3]
+        want, m = by_hand(pre, label, tg)
+        assert abs(got - want) <= 64 * 2.0 ** -52 * (m + abs(got)), (
+            f"call {{i}} of repetition {{rep}}: {{op}} on {{pre}} {{label}} -> {{tg}} returned {{got}}, "
+            f"get_conversion_factor applied by hand gives {{want}}")
+"""
+
+
+def play_history(x0, a0, ops, rounds):
+    """the history on the real library, in a tight loop (nothing else is allocated in between, so
+    short-lived units are collected and their storage re-used as in user code)"""
+    from unyt import unyt_array, unyt_quantity
+    obj = unyt_array([x0], a0)
+    label = a0
+    out = []
+    for _ in range(rounds):
+        for op in ops:
+            if op[0] == "C":
+                pre = float(obj.d[0])
+                obj.convert_to_units(op[1])
+                out.append((op, pre, label, float(obj.d[0])))
+                label = op[1]
+            elif op[0] == "P":
+                pre = float(obj.d[0])
+                r = obj.to_value(op[1]) if op[2] == 0 else (obj.to(op[1]).d if op[2] == 1 else obj.in_units(op[1]).d)
+                out.append((op, pre, label, float(r[0])))
+            elif op[0] == "T":
+                out.append((op, op[1], op[2], unyt_quantity(op[1], op[2]).to_value(op[3])))
+            else:
+                t = unyt_array([op[1]], op[2])
+                t.convert_to_units(op[3])
+                out.append((op, op[1], op[2], float(t.d[0])))
+    return out
+
+
+def histories(chk, fam, famkind, names, units, tier, hist_lines, hist_expect):
+    """histories of conversions on one long-lived array and on short-lived temporaries built from
+    unit NAMES (a fresh Unit object per temporary).  Oracle (direct): every returned number is
+    what Unit.get_conversion_factor applied by hand gives for (numbers, current unit, target) —
+    i.e. the result does not depend on the calls made before."""
+    rng = chk.rng
+    # only one dimension per history (EM families hold two)
+    bydim = {}
+    for n in names:
+        bydim.setdefault(str(units[n].dimensions), []).append(n)
+    pools = [g for g in bydim.values() if len(g) >= 2]
+    if not pools:
+        return
+    nh = (3 if famkind in ("temperature", "angle") else 1) if tier == "quick" else 8
+    rounds = 6
+    eps = EPS["float64"]
+    fac = {}
+
+    def by_hand(x, a, b):
+        if (a, b) not in fac:
+            fac[a, b] = units[a].get_conversion_factor(units[b])
+        f, o = fac[a, b]
+        return x * f - (o if o else 0.0), abs(x * f) + abs(o or 0.0), abs(f)
+
+    for h in range(nh):
+        pool = rng.choice(pools)
+        # units that are easily mistaken for each other: same scale, another zero point
+        # (K/degC/delta_degC, degree/lon, ...), or same zero point and another scale
+        srcs = pool
+        if rng.random() < 0.7:
+            a = rng.choice(pool)
+            twins = [n for n in pool if units[n].base_value == units[a].base_value]
+            if len({units[n].base_offset for n in twins}) >= 2:
+                srcs = twins
+        tgts = rng.sample(pool, min(len(pool), 2))
+        a0 = rng.choice(srcs)
+        x0 = float(gen.data(rng, (), "float64", -1, 3))
+        ops = []
+        for _ in range(rng.randint(3, 6)):
+            k = rng.choice("CPTTTII")
+            if k == "C":
+                ops.append(("C", rng.choice(srcs + tgts)))
+            elif k == "P":
+                ops.append(("P", rng.choice(tgts), rng.randint(0, 2)))
+            else:
+                ops.append((k, float(gen.data(rng, (), "float64", -1, 3)), rng.choice(srcs), rng.choice(tgts)))
+        try:
+            out = play_history(x0, a0, ops, rounds)
+        except Exception as e:
+            chk.fail(f"history-raise|{famkind}", f"a conversion history between commensurable units raised {core.exc_name(e)}",
+                     {"python": HIST_REPLAY.format(x0=x0, a0=a0, ops=ops, rounds=rounds, reps=1), "error": repr(e)})
+            continue
+        chk.case(("history", fam, a0, tuple(ops)), {"family": fam, "history": [a0] + [list(o) for o in ops], "rounds": rounds} if len(chk.samples) < 8 else None)
+        chk.count("history:" + famkind)
+        failed = False
+        wire = ["c03.hist", str(core.f2b(x0))] + list(map(str, gen.expr_wire(units[a0].expr)))
+        tols = []
+        err = 0.0
+        for i, (op, pre, label, got) in enumerate(out):
+            tg = op[1] if op[0] in "CP" else op[3]
+            want, m, f = by_hand(pre, label, tg)
+            chk.count("history-op:" + op[0])
+            if not np.isfinite(got) or abs(got - want) > 64 * eps * (m + abs(got)):
+                if not failed:
+                    failed = True
+                    route = {"C": "convert_to_units", "P": "to_value/to/in_units", "T": "temporary.to_value", "I": "temporary.convert_to_units"}[op[0]]
+                    chk.fail(f"history|{famkind}|{route}",
+                             f"call {i} of a conversion history: {op} on {pre} {label} returned {got}, get_conversion_factor applied by hand gives {want}"
+                             " (the result depends on earlier conversions)",
+                             {"python": HIST_REPLAY.format(x0=x0, a0=a0, ops=ops, rounds=rounds, reps=30), "units": [label, tg], "history": [a0] + [list(o) for o in ops]})
+            # error carried by the in-place chain of the model vs the implementation
+            t_i = 512 * eps * (m + abs(got) + abs(units[label].base_offset) + abs(units[tg].base_offset))
+            if op[0] == "C":
+                err = err * f + t_i
+                tols.append(err)
+            elif op[0] == "P":
+                tols.append(err * f + t_i)
+            else:
+                tols.append(t_i)
+            if op[0] in "CP":
+                wire += [op[0]] + list(map(str, gen.expr_wire(units[tg].expr)))
+            else:
+                wire += [op[0], str(core.f2b(op[1]))] + list(map(str, gen.expr_wire(units[op[2]].expr))) + list(map(str, gen.expr_wire(units[tg].expr)))
+        hist_lines.append("\t".join(wire))
+        hist_expect.append((fam, a0, ops, [o[3] for o in out], tols))
+
+
 def run(tier, seed):
     import unyt
     from unyt import Unit, unyt_array
 
     chk = core.Check("C03", tier, seed)
-    chk.proof = core.prove("C03", PROOF_MODULES, tier=tier)
+    chk.proof = core.prove("C03", PROOF_MODULES, extra_targets=("unytmodel", "drv_c03"), tier=tier)
     rng = chk.rng
     fams = families(tier, rng)
     model_lines = []
     model_expect = []
+    hist_lines = []
+    hist_expect = []
     dtypes = ["float64", "float32", "complex128", "int32"]
     max_triples = 1500 if tier == "quick" else 40000
     for fam, names in fams.items():
@@ -191,6 +349,15 @@ def run(tier, seed):
                          {"python": snippet(body_common + f"tol = {tol_cmp!r}\nr1 = x.to('{b}').to('{c}'); r2 = x.to('{c}')\nassert np.all(np.abs(r1.d - r2.d) <= tol), (r1, r2)\n"), "units": [a, b, c]})
             if xbc.units != xc.units or xba.units != x.units:
                 chk.fail(f"unit-label|{famkind}", "resulting unit differs between routes", {"units": [a, b, c]})
+        # --- histories on one object and on temporaries ------------------------------
+        hnames = []
+        for n in names:
+            try:
+                gen.expr_wire(units[n].expr)
+                hnames.append(n)
+            except ValueError:
+                pass
+        histories(chk, fam, famkind, hnames, units, tier, hist_lines, hist_expect)
         # --- routes and the model, on ordered pairs ---------------------------------
         pairs = list(itertools.product(names, repeat=2))
         if tier == "quick" and len(pairs) > 150:
@@ -287,7 +454,23 @@ def run(tier, seed):
             if not ok:
                 chk.disagree("convunits", f"{a}->{b} x={xv}: model ({mf},{mo},{mr}) vs implementation ({f},{o},{res})",
                              {"units": [a, b]})
+    try:
+        hreplies = core.Model("drv_c03").ask(hist_lines)
+    except Exception as e:
+        hreplies = []
+        chk.disagree("driver", repr(e))
+    for rep, (fam, a0, ops, outs, tols) in zip(hreplies, hist_expect):
+        chk.count("model:c03.hist")
+        if rep[0] != "ok" or len(rep) != len(outs) + 2:
+            chk.disagree("c03.hist", f"{fam} {a0} {ops}: model {rep[:4]}")
+            continue
+        for i, (mv, rv, tl) in enumerate(zip(rep[1:-1], outs, tols)):
+            if mv.startswith("err:") or not abs(core.b2f(mv) - rv) <= tl:
+                chk.disagree("c03.hist", f"{fam}: call {i} ({ops[i % len(ops)]}) of history from {a0}: model {mv if mv.startswith('err') else core.b2f(mv)} vs implementation {rv}",
+                             {"history": [a0] + [list(o) for o in ops]})
+                break
     rule = ("ordered triples (A,B,C) of commensurable unit strings per family (temperature incl. SI prefixes, angle incl. lat/lon, "
             "EM pairs with prefixes, table groups by dimension, re-expressed compounds) x seeded data x dtype x shape; "
-            "distinct = distinct (family,A,B,C) or (routes,family,A,B); every case has at least one non-identity conversion")
+            "plus conversion histories (in-place / copy calls on one array interleaved with calls on temporaries built from unit names, 6 rounds each); "
+            "distinct = distinct (family,A,B,C), (routes,family,A,B) or (history,family,start,ops); every case has at least one non-identity conversion")
     return chk.finish(rule)
